@@ -232,6 +232,17 @@ CLAIMED.update({
     ),
 })
 
+CLAIMED.update({
+    'C06': (
+        'proxy symbolic execution (bvx/z3 bit-vectors) of the real operation forgers (re-instantiated forge modules) against a reference encoder of the Tezos operation format',
+        'Bounded symbolic model checking: for every listed content kind, source/destination kind and entrypoint form, fees/counters/limits/amounts are symbolic (one field up to 2^118 per '
+        'obligation), every address/key/hash payload is fully symbolic behind the Base58Check boundary stub, parameters carry symbolic Micheline leaves; the forged bytes must equal the '
+        'reference encoding (which is decodable, hence injective); groups of 1..3 contents.',
+        'Reference encoder ref/opbin.py validated on the recorded mainnet groups each run; entrypoint names from a fixed list; consensus/voting kinds excluded.',
+        'DESIGN.md C06',
+    ),
+})
+
 NOT_APPLICABLE = {
     'C18': 'Parser is a PLY regex lexer + LALR tables + json; every input is concrete before the code under test runs, '
            'so a solver has nothing to decide (CrossHair regex model also unsound here). See DESIGN.md section 6.',
